@@ -174,7 +174,18 @@ fn gen_body(r: &mut Rng, sc: &mut Scope, depth: usize, budget: &mut usize, calle
             }
             8 | 9 => {
                 let (cond, binds) = gen_cond(r, sc);
-                let body = with_vars(sc, binds, |sc| gen_body(r, sc, depth - 1, budget, callees));
+                let sole_nested = r.chance(1, 4);
+                let body = with_vars(sc, binds, |sc| {
+                    if sole_nested {
+                        // the body is exactly one nested `@if` (no surrounding text)
+                        let (c2, b2) = gen_cond(r, sc);
+                        let inner = with_vars(sc, b2, |sc| gen_body(r, sc, depth - 1, budget, callees));
+                        let e2 = if r.chance(1, 3) { gen_else(r, sc, depth - 1, budget, callees) } else { Else::None };
+                        vec![Node::If { cond: c2, body: inner, els: e2 }]
+                    } else {
+                        gen_body(r, sc, depth - 1, budget, callees)
+                    }
+                });
                 let els = gen_else(r, sc, depth - 1, budget, callees);
                 Node::If { cond, body, els }
             }
